@@ -118,7 +118,8 @@ def setup():
   from scales.loadbalancer.serverset import ServerSetProvider
   from scales.asynchronous import AsyncResult
   from scales.message import Message, MethodReturnMessage, TimeoutError
-  from scales.sink import ClientMessageSink, ClientMessageSinkStack, SinkProviderBase, ClientTimeoutSink
+  from scales.sink import (ClientMessageSink, ClientMessageSinkStack, SinkProviderBase, ClientTimeoutSink,
+                           SharedSinkProvider)
   from scales.loadbalancer import aperture as apmod
   from scales import sink as sinkmod
   from scales.message import Deadline
@@ -176,6 +177,10 @@ def setup():
 
     def Open(self):
       self.world.opens.append(self.nid)
+      if self.world.shared:          # shared connections are re-opened after the last holder closed them
+        self.world.events.append(['open', self.nid])
+        if self._st == 4:
+          self._st = self.world.st0
       return AsyncResult.Complete()
 
     def Close(self):
@@ -284,7 +289,8 @@ def setup():
             ApertureBalancerSink=ApertureBalancerSink, Message=Message, MethodReturnMessage=MethodReturnMessage,
             TimeoutError=TimeoutError, Chan=Chan, Caller=Caller, RecStack=RecStack, Provider=Provider,
             CallerError=CallerError, Member=Member, ServerSet=ServerSet, rnd=rnd, tap=tap, heapmod=heapmod, stubq=stubq, BalProv=BalProv,
-            FakeClock=FakeClock, ClientTimeoutSink=ClientTimeoutSink, Deadline=Deadline)
+            FakeClock=FakeClock, ClientTimeoutSink=ClientTimeoutSink, Deadline=Deadline,
+            SharedSinkProvider=SharedSinkProvider)
 
 
 class World(object):
@@ -292,6 +298,7 @@ class World(object):
     self.st0 = case.get('st0', 2)
     self.epname = bool(case.get('epname'))
     self.epobj = bool(case.get('epobj'))
+    self.shared = bool(case.get('shared'))
     self.events = []
     self.opens = []
     self.received = []
@@ -312,6 +319,12 @@ def _make_balancer(world, case):
     if not case.get('adapt'):     # expansion only by node-down / leave, never by the load average
       props.update(min_load=-1.0, max_load=1e18)
   sp = cls.Builder.PARAMS_CLASS(**props)
+  if case.get('shared'):
+    # member channels come through the real SharedSinkProvider / RefCountedSink (one connection per endpoint,
+    # shared by all incarnations of the member), as in the Kafka stack
+    shared = _S['SharedSinkProvider'](lambda props_: ('ep', epval(props_[_S['SinkProperties'].Endpoint])))
+    shared.next_provider = prov
+    prov = shared
   bal = cls(prov, sp, {_S['SinkProperties'].Label: 'c03'})
   if kind != 'heap':
     bal._time = _S['FakeClock']()   # deterministic load average
@@ -321,12 +334,16 @@ def _make_balancer(world, case):
   return bal, ss, head
 
 
+def _chan_nid(ch):
+  return ch.nid if hasattr(ch, 'nid') else ch.next_sink.nid
+
+
 def _diag(bal):
   """Internal state, for diagnosis and the optional heap comparison only."""
   d = {}
   try:
     hp = bal._heap
-    d['heap'] = [[n.channel.nid, n.load] for n in hp[1:]]
+    d['heap'] = [[_chan_nid(n.channel), n.load] for n in hp[1:]]
     d['index'] = [n.index for n in hp[1:]]
     d['size'] = bal._size
     d['servers'] = sorted(epval(k) for k in bal._servers.keys())
@@ -337,7 +354,7 @@ def _diag(bal):
     n = bal._downq
     k = 0
     while n is not None and k < 10000:
-      dq.append(n.channel.nid)
+      dq.append(_chan_nid(n.channel))
       n = n.downq
       k += 1
     d['downq'] = dq
@@ -554,7 +571,9 @@ def _run_impl(case):
     ap_real = case.get('kind') == 'aperture_real'
     for opi, op in enumerate(case['ops']):
       k = op[0]
-      if ap_real:               # let completed Open()s of expanded nodes be noticed (pending endpoints cleared)
+      if ap_real and not case.get('slow_open'):
+        # let completed Open()s of expanded nodes be noticed (pending endpoints cleared); with slow_open the
+        # continuations of Open() only run at the next notification: several expansions fall into one open
         gevent.sleep(0)
         gevent.sleep(0)
       if k in ('join', 'leave'):
@@ -726,6 +745,8 @@ def analyse(case, obs):
     return [({'C03', 'C04', 'C05'}, 'impl-hang', 'the balancer did not return within the watchdog time (endless loop)')]
   if case.get('kind') == 'aperture_real':
     return analyse_aperture(case, obs)
+  if case.get('shared'):
+    return analyse_shared(case, obs)
 
   def new_node(nid, ep, member):
     nodes[nid] = dict(nid=nid, ep=ep, member=member, out=0, st=st0, marked=False, closed=0, close_due=False)
@@ -1064,6 +1085,96 @@ def analyse_aperture(case, obs):
   return V
 
 
+def analyse_shared(case, obs):
+  """C04 when the member channels are RefCountedSinks handed out by the real SharedSinkProvider: one underlying
+  connection (mock channel) per endpoint, shared by all incarnations of that member (a member that left with
+  requests in flight and the node created when the endpoint re-joined).  Oracle on the underlying channel:
+  it is never closed while a request dispatched to it is outstanding (requests of an incarnation that was marked
+  down when it left do not count: that incarnation's channel is to be closed at once), it is closed once the
+  endpoint is out of the server set and nothing is outstanding, and no request goes to a departed endpoint."""
+  V = []
+  labels, steps = obs['labels'], obs['steps']
+
+  def flag(sig, msg, i, pids=('C04',)):
+    V.append((set(pids), sig, 'step %d (op %d, label %s): %s' % (i, steps[i]['op'], labels[i], msg)))
+
+  init = False
+  blocked = []
+  sset = set()
+  inc = {}            # ep -> incarnation number of the current member
+  marked = {}         # ep -> current incarnation is marked down
+  chans = {}          # nid -> dict(ep, out, forgiven, is_open)
+  reqs = {}
+
+  def apply_notif(kind, ep):
+    if kind == 'join':
+      if ep not in sset:
+        sset.add(ep)
+        inc[ep] = inc.get(ep, 0) + 1
+        marked[ep] = False
+    elif ep in sset:
+      sset.discard(ep)
+      if marked.get(ep):
+        for r in reqs.values():
+          if r['ep'] == ep and r['inc'] == inc[ep] and not r['done'] and not r['forgiven']:
+            r['forgiven'] = True
+            if r['nid'] in chans:
+              chans[r['nid']]['forgiven'] += 1
+
+  for i, (lb, st) in enumerate(zip(labels, steps)):
+    res, ev = st['res'], st['events']
+    if res.get('t') == 'exc' or res.get('exc'):
+      flag('impl-exception', 'the balancer raised %s' % (res.get('exc'),), i)
+    k = lb[0]
+    if k in ('join', 'leave'):
+      if not init:
+        blocked.append((k, lb[1]))
+      else:
+        apply_notif(k, lb[1])
+    elif k == 'init':
+      init = True
+      for (k2, e2) in [('join', e) for e in lb[1]] + blocked:
+        apply_notif(k2, e2)
+      blocked = []
+    elif k == 'complete':
+      r = reqs.get(lb[1])
+      if r is not None and not r['done']:
+        r['done'] = True
+        x = chans.get(r['nid'])
+        if x is not None:
+          x['out'] -= 1
+          if r['forgiven']:
+            x['forgiven'] -= 1
+    for e in ev:
+      if e[0] == 'create':
+        chans[e[1]] = dict(nid=e[1], ep=e[2], out=0, forgiven=0, is_open=False)
+      elif e[0] == 'open' and e[1] in chans:
+        chans[e[1]]['is_open'] = True
+      elif e[0] in ('up', 'down'):
+        marked[e[1]] = (e[0] == 'down')
+      elif e[0] == 'close' and e[1] in chans:
+        x = chans[e[1]]
+        if not x['is_open']:
+          flag('close-twice', 'connection %d of %s closed again' % (x['nid'], x['ep']), i)
+        elif x['out'] - x['forgiven'] > 0:
+          flag('close-early', 'the shared connection %d of %s was closed while %d requests dispatched to it are outstanding'
+               % (x['nid'], x['ep'], x['out'] - x['forgiven']), i)
+        x['is_open'] = False
+    if k == 'dispatch' and res.get('t') == 'sent':
+      x = chans.get(res['nid'])
+      if x is not None:
+        if x['ep'] not in sset:
+          flag('dispatch-to-nonmember', 'request went to %s which is not in the server set %s' % (x['ep'], sorted(sset)), i, ('C04', 'C05'))
+        x['out'] += 1
+        reqs[res['rid']] = dict(nid=res['nid'], ep=x['ep'], inc=inc.get(x['ep'], 0), done=False, forgiven=False)
+    if init:
+      for x in chans.values():
+        if x['ep'] not in sset and x['out'] - x['forgiven'] == 0 and x['is_open']:
+          flag('close-missing', 'connection %d of departed member %s is still open although nothing is outstanding' % (x['nid'], x['ep']), i)
+          x['is_open'] = False      # report once
+  return V
+
+
 def monitor_for(pid):
   def monitor(case, obs):
     seen = set()
@@ -1132,7 +1243,7 @@ def _result(lb, st):
 
 
 def to_coq(case, obs):
-  if obs.get('hang') or case.get('kind') == 'aperture_real':
+  if obs.get('hang') or case.get('kind') == 'aperture_real' or case.get('shared'):
     return None              # a real aperture (idle servers, load-driven size) is C06's model: monitor only here
   labels, steps = obs['labels'], obs['steps']
   exp = []
@@ -1198,7 +1309,7 @@ def _one_op(r, wts, universe):
 SHARES = {
     # share of cases: on a real aperture (monitor only) / through the real ClientTimeoutSink / provider with endpoint_name
     'C03': dict(ap_real=0.25, tsink=0.4, epname=0.1),
-    'C04': dict(ap_real=0.2, tsink=0.65, epname=0.15),
+    'C04': dict(ap_real=0.2, shared=0.15, tsink=0.65, epname=0.15),
     'C05': dict(ap_real=0.25, tsink=0.3, epname=0.4),
 }
 AP_PROFILE = dict(dispatch=8, c_any=2.5, c_min=0.5, c_max=1, rec=0.1, chan=1.5, chan_min=2.0, fault=0.3, join=0.4, leave=0.5,
@@ -1238,13 +1349,41 @@ def gen_aperture_real(r, pid='C03'):
           'st0': r.choice([2, 2, 2, 2, 1]), 'tsink': r.random() < 0.3, 'ops': ops}
   if r.random() < 0.7:
     case['epobj'] = True
+  if r.random() < (0.5 if pid == 'C04' else 0.3):
+    case['slow_open'] = True
   return case
+
+
+def gen_shared(r, pid):
+  """Heap balancer whose member channels are built by the real SharedSinkProvider/RefCountedSink around the
+  mock channel (monitor only).  Churn of few endpoints with requests in flight; injected pattern: a member leaves
+  with requests in flight, re-joins (same shared connection), leaves again, then its requests complete."""
+  universe = list(range(r.choice([2, 3, 4, 5])))
+  ops = [['init', r.sample(universe, r.randrange(1, len(universe) + 1)), r.randrange(0, 1000)]]
+  for _round in range(r.choice([2, 3, 5, 8])):
+    for _ in range(r.choice([3, 6, 10])):
+      ops.append(_one_op(r, PROFILES[r.choice(['load', 'churn', 'flap', 'steady'])], universe))
+    e = r.choice(universe)
+    k = r.choice([1, 2, 4])
+    ops += [['join', e]] + [['dispatch']] * (k * len(universe))
+    ops += [['leave', e], ['join', e]]
+    if r.random() < 0.5:
+      ops += [['dispatch']] * r.choice([0, 1, 3])
+    ops += [['leave', e]]
+    for _ in range(k * len(universe)):
+      ops.append(['complete', 'ep', e, r.randrange(0, 1000), r.choice(KINDS)])
+  ops.append(['burst'])
+  return {'kind': 'heap', 'st0': r.choice([2, 2, 2, 4]), 'shared': True, 'tsink': r.random() < 0.4,
+          'epobj': r.random() < 0.7, 'ops': ops}
 
 
 def gen_case(r, pid, size_hint=None, aperture_share=0.15):
   sh = SHARES[pid]
-  if r.random() < sh['ap_real']:
+  x_ = r.random()
+  if x_ < sh['ap_real']:
     return gen_aperture_real(r, pid)
+  if x_ < sh['ap_real'] + sh.get('shared', 0.0):
+    return gen_shared(r, pid)
   nmem = size_hint or r.choice([1, 2, 3, 4, 5, 6, 6, 7, 7, 8, 9, 10, 12])
   universe = list(range(nmem + r.choice([0, 0, 1, 2, 3])))
   ops = []
@@ -1363,6 +1502,10 @@ def stats(cases, obs):
       c['cases_with_named_endpoint_provider'] += 1
     if cs.get('epobj'):
       c['cases_with_fresh_endpoint_objects_per_notification'] += 1
+    if cs.get('shared'):
+      c['cases_with_real_SharedSinkProvider_channels'] += 1
+      c['shared_connection_reopened'] += max(0, sum(1 for st_ in o['steps'] for e_ in st_['events'] if e_[0] == 'open')
+                                            - sum(1 for st_ in o['steps'] for e_ in st_['events'] if e_[0] == 'create'))
     if cs.get('kind') == 'aperture_real':
       sizes = [len((st_.get('diag') or {}).get('heap', [])) for st_ in o['steps']]
       labs = [l_[0] for l_ in o['labels']]
